@@ -278,6 +278,9 @@ func c15Follow(f []string) string {
 }
 
 func c15RunCase(f []string) string {
+	if f[0] == "tailb" && len(f) >= 2 {
+		return c15TailReplay(f)
+	}
 	if f[0] != "follow" || len(f) < 5 {
 		return "bad-op"
 	}
@@ -459,6 +462,8 @@ func c15GenAll(r *Rand, tier string) []string {
 	for i := 0; i < n; i++ {
 		out = append(out, c15GenCase(r))
 	}
+	// observation point (b): the real code runs HERE, the observed batch lengths become part of the case
+	out = append(out, c15TailGenAll(r, tier)...)
 	return out
 }
 
@@ -469,6 +474,10 @@ func c15Stats(cases []string) map[string]int {
 	}
 	for _, c := range cases {
 		f := strings.Fields(c)
+		if len(f) >= 2 && f[0] == "tailb" {
+			c15TailStats(st, c)
+			continue
+		}
 		if len(f) < 5 {
 			continue
 		}
